@@ -42,7 +42,10 @@ RULE = ("Homogeneous domain: 1-4 distinct equilibria of a pool of 17 acid/base/c
         "default-chain solution of another random initial state - or the solution itself; 'root_options': root() with "
         "rref_equil, rref_preserv, neqsys_type (chained_conditional, conditional_chained, static_conditions), tol (1e-8, "
         "1e-10, 1e-12) and method (default, lm), a third of the cases also with a scaled / random x0; both judged against "
-        "init_concs exactly like a plain solve (a guess that does not converge is inconclusive).  "
+        "init_concs exactly like a plain solve (a guess that does not converge is inconclusive).  'linrel_chains': the "
+        "homogeneous domain through (NumSysLinRel,) and (NumSysLog, NumSysLinRel) (also offered to 'series' roots); "
+        "'reuse': one get_neqsys() object of any of the five root chains passed as neqsys= to root() for 2-3 random "
+        "initial states of the same system, each result judged against the initial state of its own call.  "
         "Non-trivial = at least two equilibria sharing a species and success reported; a precipitation case that "
         "ends with solid present, or a near-saturation case that starts supersaturated and ends without solid; a "
         "series with at least two judged grid points; a root() success with a non-default option or with a guess whose "
@@ -631,8 +634,7 @@ def check_series(case, ctx):
     es = build08(M)
     ns = len(M.species)
     if M.api == "roots":
-        NumSysLin, NumSysLog = _numsys()
-        kw = {"default": {}, "loglin": {"NumSys": (NumSysLog, NumSysLin)}, "lin": {"NumSys": (NumSysLin,)}}[chain]
+        kw = {} if chain == "default" else {"NumSys": chain_classes(chain)}
         key, vals = M.varied[0]
         out = _call(es.roots, dict(M.c0), np.array(vals), key, **kw)
     else:
@@ -755,6 +757,44 @@ def check_root_args(case, ctx):
     judge_homog(ctx, M, x, chain, own, opts=M.opts)
 
 
+
+def check_reuse(case, ctx):
+    """One solver object (EqSystem.get_neqsys) handed to root(init_k, neqsys=obj) for 2-3 different initial states in
+    turn - the documented purpose of the `neqsys=` argument: every success-and-sane result is judged against the
+    initial state of *its own* call."""
+    import numpy as np
+    M = G.ModelReuse(case)
+    chain = case["chain"]
+    ctx.label("chain:" + chain, "neq=%d" % len(M.idx), "states=%d" % len(M.states))
+    es = build08(M)
+    obj = _call(es.get_neqsys, "chained_conditional", NumSys=chain_classes(chain))
+    if is_err(obj):
+        raise obj.exc
+    judged = 0
+    for k in range(len(M.states)):
+        P = M.state(k)
+        out = _call(es.root, dict(P.c0), neqsys=obj)
+        if is_err(out):
+            if _solver_stack(out):
+                ctx.label("inconclusive_state:solver_exception:%s" % out.type)
+                continue
+            raise out.exc
+        x, info, sane = out
+        if info["success"] and sane:
+            judged += 1
+            ctx.label("judged_state_%d" % k)
+            judge_homog(ctx, P, np.asarray(x, dtype=float), chain, (lambda info=info: _last_stage(info)),
+                        extra={"state_index": k})
+        # after the genuineness oracle: a stale scale would otherwise be reported as a wrong formulation
+        if not judge_stages(ctx, chain, info, elemental_bounds(P.c0, P.species)):
+            return
+    if judged == 0:
+        ctx.skip("no_success:" + chain)
+        return
+    ctx.label("success:" + chain)
+    ctx.nontrivial(judged >= 2)
+
+
 _TOL = {"|Q/K-1|": Q_RTOL, "conservation": "%g*sum|terms|" % CONS_RTOL}
 
 SUBCHECKS = [
@@ -790,6 +830,12 @@ SUBCHECKS = [
              rule="G.c08_series_cases: EqSystem.roots (1 varied substance; chains default, (Log, Lin), (Lin,)) and "
                   "EqSystem.solve(init_concs, varied) with 1-2 varied substances x 2-4 values, keys in and out of "
                   "substance order; every success-and-sane grid point vs its own initial state; result shape"),
+    SubCheck("linrel_chains", check_homog, strategy=G.c08_cases(chains=("linrel", "loglinrel")), quick=200, thorough=4000,
+             tolerances=_TOL, rule="the homogeneous domain through root(NumSys=(NumSysLinRel,)) and (NumSysLog, NumSysLinRel)"),
+    SubCheck("reuse", check_reuse, strategy=G.c08_reuse_cases(), quick=200, thorough=4000, tolerances=_TOL,
+             rule="G.c08_reuse_cases: one get_neqsys('chained_conditional', NumSys=chain) object, chains (LinRel,), "
+                  "(Log, LinRel), (Log,), (Log, Lin), (Lin,), passed as neqsys= to root() for 2-3 random initial states of "
+                  "the same system (1-3 equilibria); each result vs the initial state of its own call"),
     SubCheck("root_x0", check_root_args, strategy=G.c08_x0_cases(), quick=240, thorough=6000, tolerances=_TOL,
              rule="G.c08_x0_cases: homogeneous domain (1-3 equilibria), root(init_concs, x0=ndarray) on chains (Lin,), "
                   "default, (Log, Lin); the guess is init_concs scaled by 10^+-[0.1, 1], a random positive vector, the "
